@@ -1,6 +1,6 @@
 (* Model/DriverRS.v -- driver entry points for GF(256) and the RS encoder *)
 From Coq Require Import NArith List Bool.
-From DM Require Import Generated.Symbols Model.Outcome Model.GF Model.RSEnc Spec.GF256.
+From DM Require Import Generated.Symbols Model.Outcome Model.GF Model.RSEnc Model.RSDec Spec.GF256.
 Import ListNotations.
 Open Scope N_scope.
 
@@ -14,3 +14,5 @@ Definition d_generator (k : N) : option (list N) := RSEnc.generator k.
 Definition d_rs_encode (s : SymbolSize) (d : list N) : outcome unit (list N) := RSEnc.encode_error s d.
 (* spec side, for the direct oracle *)
 Definition d_spec_gmulrow (a : N) : list N := map (gmul a) bytes256.
+
+Definition d_rs_decode (s : SymbolSize) (cw : list N) := RSDec.decode cw s.
